@@ -63,6 +63,13 @@ MatmulMismatch(x) ==
     \/ /\ x.k = "tt"
        /\ \E y0 \in MS : y0.cx = x.cx /\ Len(y0.I) = Len(x.I) /\ y0.I # x.I
                          /\ C("matmul", "shape", x, [y |-> Second(y0)], TRUE, TRUE)
+    \* operands of different order (a prefix of the longer one may well match, and its next bond may have rank one)
+    \/ /\ x.k = "ttm"
+       /\ \E y0 \in TS \cup MS, op \in {"matmul", "fast_matvec", "amen_mv"} :
+             /\ y0.cx = x.cx /\ Len(y0.I) # Len(x.I) /\ (op # "matmul" => y0.k = "tt")
+             /\ C(op, "order", x, [y |-> Second(y0)], FALSE, TRUE)
+    \/ /\ x.k = "tt"
+       /\ \E y0 \in MS : y0.cx = x.cx /\ Len(y0.I) # Len(x.I) /\ C("matmul", "order", x, [y |-> Second(y0)], FALSE, TRUE)
     \/ /\ x.k = "tt"       \* tensor @ tensor is not defined
        /\ \E y0 \in TS : y0.cx = x.cx /\ C("matmul", "kind", x, [y |-> Second(y0)], TRUE, TRUE)
     \/ /\ x.k = "ttm"      \* operator @ dense array whose trailing modes do not match
